@@ -483,6 +483,39 @@ def register(kernel):
            model="swap_value ROps st A s1 s2", model_name="Observables.swap_value (real part of weight(s1', s1) * weight(s2', s2) for the exchanged pair)",
            tactic="intros; cbv [GEN swap_value]; rewrite swap_mask_bmerge; reflexivity", **sw)
 
+    # ------------------------------------------------------------------ C06: the contrastive-divergence combination of one batch
+    # positive-phase gradients (one vector per network), the chain end vk and the model gradient function are kernel inputs
+    kernel("C06", name="compute_batch_gradients", vec=True, file="qucumber/nn_states/neural_state.py", func="NeuralStateBase.compute_batch_gradients",
+           inputs=[("k", "k", Z), ("samples_batch", "samples", "LBV"), ("neg_batch", "neg", "LBV"), ("bases_batch", "bases", "Val")],
+           hole_types={"v": "LBV"},
+           atoms=[("self.positive_phase_gradients(samples_batch, bases_batch=bases_batch)", "pos", "LV"),
+                  ("self.rbm_am.gibbs_steps(k, neg_batch)", "vk", "LBV"),
+                  ("self.rbm_am.effective_energy_gradient($v)", "(gm $v)", "V"),
+                  ("neg_batch.shape[0]", "(Z.of_nat (length neg))", Z), ("len(neg_batch)", "(Z.of_nat (length neg))", Z),
+                  ("samples_batch.shape[0]", "(Z.of_nat (length samples))", Z), ("len(samples_batch)", "(Z.of_nat (length samples))", Z)],
+           coq_params=[("pos", "list (list R)"), ("gm", "list bits -> list R"), ("vk", "list bits"), ("neg", "list bits"), ("samples", "list bits")], result="LV",
+           thm_params=[("pos", "list (list R)"), ("gm", "list bits -> list R"), ("vk", "list bits"), ("neg", "list bits"), ("samples", "list bits")], gen_args="pos gm vk neg samples",
+           model="cd_apply ROps pos (cd_negative ROps (gm vk) neg)",
+           model_name="CDStep.cd_apply / cd_negative (head gradient minus model gradient over the NEGATIVE batch size; the phase network's entry untouched)",
+           imports=["Bits", "Rbm", "CDStep"],
+           tactic="intros; cbv [GEN cd_apply cd_negative vdivs nofnat vscale]; cbn [ndiv nofZ nmul ROps]; destruct pos; [reflexivity|]; f_equal; f_equal; "
+                  "first [reflexivity | (apply map_ext; intros; unfold Rdiv; ring)]",
+           corollaries=[("batch_gradients_of_a_binary_amplitude_network",
+                         "forall (am : @brbm R) (pos : list (list R)) (neg vk samples : list bits), "
+                         "GEN pos (b_energy_grad_batch ROps am) vk neg samples = cbg_binary ROps am pos neg vk",
+                         "intros; rewrite TIE; reflexivity"),
+                        ("batch_gradients_of_a_purification_amplitude_network",
+                         "forall (am : @prbm R) (pos : list (list R)) (neg vk samples : list bits), "
+                         "GEN pos (p_energy_grad_batch ROps am) vk neg samples = cbg_purification ROps am pos neg vk",
+                         "intros; rewrite TIE; reflexivity")])
+    kernel("C06", name="vector_to_grads_pointer", file="qucumber/utils/gradients_utils.py", func="vector_to_grads", kind="local", target="pointer",
+           inputs=[], atoms=[("param.numel()", "n", Z)], carried={"pointer": ("pointer", Z), "num_param": ("n", Z)},
+           coq_params=[("pointer", "Z"), ("n", "Z")], result=Z, thm_params=[("pointer", "nat"), ("s", "shape")],
+           gen_args="(Z.of_nat pointer) (Z.of_nat (numel s))", model="Z.of_nat (pointer + numel s)",
+           model_name="CDStep.v2g_from (the next parameter starts where this one's numel entries end)", imports=["CDStep"],
+           tactic="intros; cbv [GEN]; lia")
+
+
 def register_corollaries(cor):
     """property-level facts stated over SEVERAL generated kernels at once (compiled with the combined generated file)"""
     # C05: the Markov kernel assembled from the TRANSLATED conditionals satisfies detailed balance with respect to the weight
